@@ -1,28 +1,28 @@
 SPECIFICATION Spec
 CONSTANTS
   NV = 2
-  StabV = {2}
+  StabV = {}
   HasHf = FALSE
   Absent0 = {}
   Admin = FALSE
-  TrackRep = FALSE
+  TrackRep = TRUE
   AlwaysW = TRUE
   AlwaysPRs = TRUE
-  Cmds = {}
-  Rewrites = FALSE
-  NP = 2
+  Cmds = {"reset", "force_reset"}
+  Rewrites = TRUE
+  NP = 1
   UseQueue = TRUE
   SkipQueue = FALSE
   Faults = FALSE
   FaultKinds = {"crash", "reject", "third"}
   MaxC = 9
-  RepStatuses = {"SUCCESSFUL", "FAILED"}
+  RepStatuses = {"SUCCESSFUL"}
   Atomic = TRUE
   ReportFine = FALSE
-  AutoApprove = TRUE
-  Opts = {}
+  AutoApprove = FALSE
+  Opts = {"wait"}
   ReportOnce = TRUE
-  MaxLevel = 9
+  MaxLevel = 10
   EmitJson = FALSE
   PruneOnlyOwned = FALSE
   PushOnlyChanged = FALSE
@@ -38,8 +38,12 @@ INVARIANT C19_Children
 PROPERTY C03_Green
 PROPERTY C08_FF
 PROPERTY C08_Foreign
-PROPERTY C12_Held
 PROPERTY C20_EntryFate
 PROPERTY C06_Gate
 PROPERTY C04_Gate
+PROPERTY C15_ManualKept
+PROPERTY C15_OwnOnly
+PROPERTY C15_LossyRefuses
+PROPERTY C10_CmdConsumed
+PROPERTY C10_Converge
 CHECK_DEADLOCK FALSE
